@@ -107,37 +107,79 @@ def extract_created_transition(res, E):
     return (c_d, c0, now), expr, covered
 
 
-def extract_ims_operator(res, E):
-    """Which comparison decides If-Modified-Since, and with which operands, from the MIR of maybe_not_modified."""
+def extract_ims_predicate(res, E):
+    """The If-Modified-Since decision of maybe_not_modified as a z3 predicate over (date_ns, done_ns): the
+    function's MIR is run with both instants as integers (chrono comparisons / timestamp() modelled on integer
+    nanoseconds); the disjunction of the projected conditions of the paths that parse the header's date and return 304."""
     body = E.prog.find("src/http/response.rs", "Response", "maybe_not_modified")
-    res.functions.append("http::response::Response::maybe_not_modified (MIR, %d blocks): deciding comparison" % len(body.blocks))
-    done_p = mir.Opq("DateTime<Utc>", "done")
-    ops = set()
-    etag_cmp = False
+    res.functions.append("http::response::Response::maybe_not_modified (MIR, %d blocks): If-Modified-Since decision" % len(body.blocks))
+    done_ns, date_ns = z3.Int("ims_done_ns"), z3.Int("ims_date_ns")
+    E.solver.add(done_ns >= 0, date_ns >= 0, done_ns <= 4 * 10 ** 18, date_ns <= 4 * 10 ** 18)
+    shapes = set()
+
+    def through(E_, st, v):
+        a = v.get(())
+        for _ in range(3):
+            if isinstance(a, mir.Ref):
+                a = E_.load(st, a.loc).get(())
+        return a
 
     def m_cmp(E_, st, frame, callee, argvals, dest_ty):
         m = re.search(r"PartialOrd(<.*>)?>::(lt|le|gt|ge)$", callee)
-        a = argvals[0].get(())
-        b = argvals[1].get(())
-        for _ in range(2):
-            if isinstance(a, mir.Ref):
-                a = E_.load(st, a.loc).get(())
-            if isinstance(b, mir.Ref):
-                b = E_.load(st, b.loc).get(())
-        left = "done" if a is done_p else "date"
-        right = "done" if b is done_p else "date"
-        ops.add((m.group(2), left, right))
-        st.events.append(mir.Event("ims-compare:" + m.group(2), argvals, None, ("", ""), "call", callee))
-        return {(): E_.fresh_leaf("bool", "ims")}
-    paths = E.explore(body, max_visits=3, nomut=[r"."], arg_values={"_3": {(): done_p}}, max_paths=20000,
-                      models={r"^<DateTime<Utc> as PartialOrd(<.*>)?>::(lt|le|gt|ge)$": m_cmp})
+        a, b = through(E_, st, argvals[0]), through(E_, st, argvals[1])
+        if not (mir.is_z(a) and mir.is_z(b) and z3.is_int(a) and z3.is_int(b)):
+            return NotImplemented
+        shapes.add("DateTime " + m.group(2))
+        return {(): {"lt": a < b, "le": a <= b, "gt": a > b, "ge": a >= b}[m.group(2)]}
+
+    def m_timestamp(E_, st, frame, callee, argvals, dest_ty):
+        a = through(E_, st, argvals[0])
+        if mir.is_z(a) and z3.is_int(a):
+            shapes.add("timestamp()")
+            return {(): a / NS}
+        return NotImplemented
+
+    def m_parse(E_, st, frame, callee, argvals, dest_ty):
+        E_.fresh_n += 1
+        d = z3.Int("ims_parsed!%d" % E_.fresh_n)
+        st.cond.append(z3.Or(d == 0, d == 1))
+        st.events.append(mir.Event("ims-date-parsed", argvals, None, ("", ""), "call", callee))
+        return {("disc",): d, (("v", "Some"), ("f", 0)): date_ns}
+
+    paths = E.explore(body, max_visits=3, nomut=[r"."], arg_values={"_3": {(): done_ns}}, max_paths=20000,
+                      models={r"^<DateTime<Utc> as PartialOrd(<.*>)?>::(lt|le|gt|ge)$": m_cmp,
+                              r"DateTime::<.*>::timestamp$|DateTime::timestamp$": m_timestamp,
+                              r"parse_http_date$": m_parse})
+    names = {"ims_done_ns", "ims_date_ns"}
+    alts = []
     n304 = 0
+    mixed = False
     for p in paths:
-        if p.kind == "return" and p.has(r"Response::not_modified$"):
-            n304 += 1
-            if any(e.kind == "call" and re.search(r"PartialEq.*::eq$|::eq$", e.callee or e.name) for e in p.events):
-                etag_cmp = True
-    return ops, n304, len(paths)
+        if p.kind != "return" or not p.has(r"Response::not_modified$"):
+            continue
+        n304 += 1
+        if not p.has(r"ims-date-parsed$"):
+            continue            # decided by the ETag alone
+        keep = []
+        for c in p.cond:
+            vs = set()
+
+            def collect(e):
+                if z3.is_const(e) and e.decl().kind() == z3.Z3_OP_UNINTERPRETED:
+                    vs.add(e.decl().name())
+                for ch in e.children():
+                    collect(ch)
+            collect(c)
+            if vs & names:
+                if vs <= names:
+                    keep.append(c)
+                else:
+                    mixed = True
+        alts.append(z3.And(keep) if keep else z3.BoolVal(True))
+    if mixed:
+        res.inconclusive.append("maybe_not_modified: a condition mixes the instants with other values; the If-Modified-Since predicate is not separable")
+    pred = z3.simplify(z3.Or(alts)) if alts else z3.BoolVal(False)
+    return (date_ns, done_ns), pred, sorted(shapes), n304, len(paths), len(alts)
 
 
 def run(res, tier):
@@ -168,18 +210,18 @@ def run(res, tier):
             update_sets_created = True
     res.functions.append("operation::Server::process_once, payload::history::SharedHistory::update (MIR): step order and which step writes `created`")
     (c_d, c0, now), new_created, covered = extract_created_transition(res, E)
-    ops, n304, npaths = extract_ims_operator(res, E)
-    res.extra["ims_comparison"] = sorted(ops)
+    (ims_date, ims_done), ims_pred, ims_shapes, n304, npaths, n_ims = extract_ims_predicate(res, E)
+    res.extra["ims_predicate"] = str(ims_pred)
+    res.extra["ims_predicate_built_from"] = ims_shapes
     res.extra["update_writes_created"] = update_sets_created
-    if len(ops) != 1:
-        res.inconclusive.append("If-Modified-Since is decided by %d comparisons %s: model not applicable" % (len(ops), sorted(ops)))
+    if n_ims == 0:
+        res.inconclusive.append("maybe_not_modified has no path that returns 304 on the If-Modified-Since date: model not applicable")
         mprop.finish_engine(res, E)
         return
-    op, left, right = list(ops)[0]
+    op, left, right = str(ims_pred), "date", "done"
 
     def ims_304(date, done):
-        a, b = (date, done) if left == "date" else (done, date)
-        return {"lt": a < b, "le": a <= b, "gt": a > b, "ge": a >= b}[op]
+        return z3.substitute(ims_pred, (ims_date, date), (ims_done, done))
 
     # 2. the history model -------------------------------------------------------------------------------
     s = z3.Solver()
